@@ -32,7 +32,9 @@ theorem cbf_addLoop_ok (n : Int) (cells : List Int) (pairs : List (Nat × Int)) 
   | nil => exact ⟨h, rfl⟩
   | cons kv rest ih =>
       obtain ⟨k, v⟩ := kv
-      have hmax : Gen.uint32Max = 4294967295 := rfl
+      -- only the ORDER of the library's limit and the cell's storage range matters here, not its value
+      have hmax : (Gen.uint32Max : Int) ≤ 4294967295 := by decide
+      have hmax0 : (0 : Int) ≤ Gen.uint32Max := by decide
       simp only [CBF.addLoop]
       by_cases h1 : Gen.cbfAddClampCmp.evalInt v Gen.uint32Max = true
       · rw [if_pos h1]
@@ -132,8 +134,11 @@ theorem cms_addLoop_ok (bins : List Int) (pairs : List (Nat × Int)) (acc : List
   | nil => exact ⟨h, rfl⟩
   | cons kv rest ih =>
       obtain ⟨k, v⟩ := kv
-      have hmax : Gen.int32Max = 2147483647 := rfl
-      have hmin : Gen.int32Min = -2147483648 := rfl
+      -- only the ORDER of the library's limits and the cell's storage range matters here, not their values
+      have hmax : Gen.int32Max ≤ 2147483647 := by decide
+      have hmax0 : (-2147483648 : Int) ≤ Gen.int32Max := by decide
+      have hmin : (-2147483648 : Int) ≤ Gen.int32Min := by decide
+      have hmin0 : Gen.int32Min ≤ 2147483647 := by decide
       simp only [CMS.addLoop, Gen.cmsAddClampCmp, Cmp.evalInt, decide_eq_true_eq]
       split
       · have := ih (bins.set k Gen.int32Max) (Gen.int32Max :: acc) (BinsOK_set h k _ (by omega))
@@ -149,8 +154,11 @@ theorem cms_removeLoop_ok (bins : List Int) (pairs : List (Nat × Int)) (acc : L
   | nil => exact ⟨h, rfl⟩
   | cons kv rest ih =>
       obtain ⟨k, v⟩ := kv
-      have hmax : Gen.int32Max = 2147483647 := rfl
-      have hmin : Gen.int32Min = -2147483648 := rfl
+      -- only the ORDER of the library's limits and the cell's storage range matters here, not their values
+      have hmax : Gen.int32Max ≤ 2147483647 := by decide
+      have hmax0 : (-2147483648 : Int) ≤ Gen.int32Max := by decide
+      have hmin : (-2147483648 : Int) ≤ Gen.int32Min := by decide
+      have hmin0 : Gen.int32Min ≤ 2147483647 := by decide
       simp only [CMS.removeLoop, Gen.cmsRemoveKeepCmp, Cmp.evalInt, decide_eq_true_eq]
       split
       · split
